@@ -915,6 +915,9 @@ const VIOLATIONS: &[(&str, &str, char, &str, &str)] = &[
     ("member-missing", "ZS s = zmk();", 'e', "s.zz", "s.m"),
     ("swizzle-out-of-range", "float2 v = float2(1, 2);", 'e', "v.z", "v.y"),
     ("vector-extension", "float2 v = float2(1, 2); float3 w = float3(1, 2, 3);", 's', "float3 x = v;", "float2 x = w;"),
+    ("swizzle-too-long", "float4 zv = float4(1, 2, 3, 4);", 'e', "zv.xyzwx", "zv.xyzw"),
+    ("swizzle-too-long-colours", "float3 zv = float3(1, 2, 3);", 'e', "zv.rgbrg", "zv.rgbr"),
+    ("scalar-swizzle-too-long", "float zs = 1;", 'e', "zs.xxxxx", "zs.xxxx"),
     ("constructor-too-few", "", 'e', "float3(1, 2)", "float3(1, 2, 3)"),
     ("constructor-too-many", "", 'e', "float2(1, 2, 3)", "float2(1, 2)"),
     ("subscript-struct", "ZS s = zmk();", 'e', "s[0]", "s.arr[0]"),
@@ -1299,7 +1302,7 @@ pub fn check_record(r: &Value) -> Verdict {
 
 pub fn run(ctx: &mut Ctx) {
     use proptest::prelude::*;
-    ctx.rule = "(1) IR lint: generated programs of the resource-free subset (always accepted, checked), every 1-2 operator expression tree over the whole operator table on int / float / mixed int-float-uint-bool operands (accepted or rejected; only accepted ones are linted), and the repository's own .rssl inputs are type checked; the resulting module is walked by an independent checker with structural types (operand types equal and of the required class for every operator, non-const lvalues for every write, call arity / argument types / out arguments, return types, constructor slots, initialiser shapes, conditions, subscripts, existing ids) and by RSSL's own Expression::get_type asserts. (2) Injection: 86 kinds of single typing violations (writes to const incl. members / elements / swizzles of const objects and static const globals, writes to rvalues, rvalue or const out / inout arguments, argument count and type errors, return type errors, non-boolean conditions, non-integer switch values, operator operand classes, initialiser shapes, ...) are placed in 15 expression / 5 statement / 3 return contexts inside a function appended before or after a generated program or as a struct method; the program with the violation must be rejected with a diagnostic and its valid twin must be accepted. Writes through every swizzle of length 1-4 over xyzw / rgba on float2/3/4 in four write positions (=, +=, out argument, ++) must be accepted exactly when all components exist and none repeats (8 160 cases). An lvalue of every type from {bool, int, uint, float} x {scalar, 1, 2, 3} passed to an out / inout parameter of every such type (512 cases) is accepted exactly for equal types or T / T1 of one scalar. Every access path of at most 4 steps (members, array elements, vector components / subscripts / swizzles, matrix rows / _mRC components / _mRC swizzles) from 12 root types (scalars, vectors, matrices, arrays of them, two structs, an array of structs) on a const parameter, const local and static const global, in 6 write forms (=, +=, ++, --, out argument, inout argument) must be rejected while the same program without `const` is accepted, and reading through the path must be accepted. A catalogue of 10 resource-related pairs (writes to read-only buffers, textures and constant buffers, resources as operands) is checked the same way. Non-trivial: lint = module with at least 3 expressions; injection = violation rejected and twin accepted. Distinct = hash of the source.".into();
+    ctx.rule = "(1) IR lint: generated programs of the resource-free subset (always accepted, checked), every 1-2 operator expression tree over the whole operator table on int / float / mixed int-float-uint-bool operands (accepted or rejected; only accepted ones are linted), and the repository's own .rssl inputs are type checked; the resulting module is walked by an independent checker with structural types (operand types equal and of the required class for every operator, non-const lvalues for every write, call arity / argument types / out arguments, return types, constructor slots, initialiser shapes, conditions, subscripts, existing ids) and by RSSL's own Expression::get_type asserts. (2) Injection: 89 kinds of single typing violations (writes to const incl. members / elements / swizzles of const objects and static const globals, writes to rvalues, rvalue or const out / inout arguments, argument count and type errors, return type errors, non-boolean conditions, non-integer switch values, operator operand classes, initialiser shapes, ...) are placed in 15 expression / 5 statement / 3 return contexts inside a function appended before or after a generated program or as a struct method; the program with the violation must be rejected with a diagnostic and its valid twin must be accepted. Writes through every swizzle of length 1-4 over xyzw / rgba on float2/3/4 in four write positions (=, +=, out argument, ++) must be accepted exactly when all components exist and none repeats (8 160 cases). An lvalue of every type from {bool, int, uint, float} x {scalar, 1, 2, 3} passed to an out / inout parameter of every such type (512 cases) is accepted exactly for equal types or T / T1 of one scalar. Every access path of at most 4 steps (members, array elements, vector components / subscripts / swizzles, matrix rows / _mRC components / _mRC swizzles) from 12 root types (scalars, vectors, matrices, arrays of them, two structs, an array of structs) on a const parameter, const local and static const global, in 6 write forms (=, +=, ++, --, out argument, inout argument) must be rejected while the same program without `const` is accepted, and reading through the path must be accepted. A catalogue of 10 resource-related pairs (writes to read-only buffers, textures and constant buffers, resources as operands) is checked the same way. Non-trivial: lint = module with at least 3 expressions; injection = violation rejected and twin accepted. Distinct = hash of the source.".into();
     ctx.assumptions.push("the linter models the resource-free subset; object types, intrinsic signatures and matrices' aggregate initialisers are treated as opaque and counted".into());
     ctx.assumptions.push("a condition may have any numeric or enum type (it is converted where it is used); default argument values are stored unconverted and only need to be convertible".into());
     if !ctx.replay_tier(&check_record) {
